@@ -79,7 +79,7 @@ func crossLaplacianSerial(f func(x, y []float64) float64, x, y []float64, stenci
 		// Copy x and y in case they are modified during the call.
 		copy(xCopy, x)
 		copy(yCopy, y)
-		return f(x, y)
+		return f(xCopy, yCopy)
 	}
 	origin := getOrigin(originKnown, originValue, fo, stencil)
 
@@ -123,7 +123,7 @@ func crossLaplacianConcurrent(nWorkers, evals int, f func(x, y []float64) float6
 
 	var originWG sync.WaitGroup
 	hasOrigin := usesOrigin(stencil)
-	if hasOrigin {
+	if hasOrigin && !originKnown {
 		originWG.Add(1)
 		// Launch worker to compute the origin.
 		go func() {
